@@ -110,8 +110,18 @@ func vCoqMsgOfWith(m *message.Message, sub []byte, subTerm string) string {
 
 func vEmitDec(class string, b []byte) bool { return vEmitDecWith(class, b, nil, "") }
 
+var vDecCount int
+
 func vEmitDecWith(class string, b, sub []byte, subTerm string) bool {
 	m := &message.Message{}
+	// every other frame is decoded into an envelope which has been used before (a receive loop may keep one envelope
+	// per connection): what comes out depends on the frame alone
+	if vDecCount++; vDecCount%2 == 0 {
+		m = &message.Message{Exchange: &message.Message_Request{Request: &message.Request{CallId: "left over from the previous frame", Method: "Leftover", Payload: []byte("left over")}}}
+		if vDecCount%4 == 0 {
+			m = &message.Message{Exchange: &message.Message_Response{Response: &message.Response{CallId: "left over from the previous frame", Payload: []byte("left over"), Error: "left over"}}}
+		}
+	}
 	err := UnmarshalProtoMessage(b, m)
 	out := "None"
 	kind := "reject"
@@ -368,7 +378,10 @@ func TestVerifC16(t *testing.T) {
 	if b, err := MarshalProtoMessage(&message.Message{}); err == nil {
 		vEmit(vCase{Class: "enc-none", Coq: fmt.Sprintf("CEnc MNone (Some %s)", vCoqBytes(b)), Sig: "enc-none"})
 	}
-	vEmitDec("dec-empty", nil)
+	for k := 0; k < 4; k++ {
+		vEmitDec("dec-empty", nil)
+		vEmitDec("dec-empty", []byte{})
+	}
 	for i := 0; i < nMal; i++ {
 		switch r.Intn(12) {
 		case 0, 1, 2, 3:
